@@ -55,7 +55,7 @@ def handleEval : List String → Option String
       match rt.find? (fun e => e.1 == p && e.2.1 == s) with
       | some e => e.2.2
       | none => false
-    match parseFilterset dtext [] [], parseFilterset etext [] [] with
+    match parseFilterset dtext [] [] [], parseFilterset etext [] [] [] with
     | .ok d, .ok e =>
       if unsupportedGlob d || unsupportedGlob e then pure "unsupported-glob" else
       let derrs := bannedErrors d ++ compileErrors g ro d
